@@ -51,45 +51,50 @@ Lemma loop_S f d st lg e sg : loop sc maxd (S f) d st lg e sg =
   | None => Fail lg
   | Some (st1, None) => Done (st1, lg)
   | Some (st1, Some x) =>
-    match exec sc maxd f (S d) st1 (mkInv e sg (s_recv x) (s_slot x) :: lg) (sc (s_recv x) (s_slot x)) with
+    match exec sc maxd f (S d) st1 (mkInv e sg (s_recv x) (s_slot x) :: lg) (sc (mkInv e sg (s_recv x) (s_slot x) :: lg) (s_recv x) (s_slot x)) with
     | Done (st2, lg2) => if invalidated st2 e sg then Done (st2, lg2) else loop sc maxd f d st2 lg2 e sg
     | o => o
     end
   end.
 Proof. reflexivity. Qed.
 
-Lemma sexec_0 d p lg acts : sexec sc maxd 0 d p lg acts = OutOfFuel lg.
+Lemma sexec_0 pick d p lg acts : sexec pick sc maxd 0 d p lg acts = OutOfFuel lg.
 Proof. reflexivity. Qed.
-Lemma sexec_nil f d p lg : sexec sc maxd (S f) d p lg [] = Done (p, lg).
+Lemma sexec_nil pick f d p lg : sexec pick sc maxd (S f) d p lg [] = Done (p, lg).
 Proof. reflexivity. Qed.
-Lemma sexec_connect f d p lg e sg l s rest : sexec sc maxd (S f) d p lg (AConnect e sg l s :: rest) =
-  if sp_E p e && sp_L p l && (sg <? sp_nsg p) then sexec sc maxd f d (sp_connect p e sg l s) lg rest else sexec sc maxd f d p lg rest.
+Lemma sexec_connect pick f d p lg e sg l s rest : sexec pick sc maxd (S f) d p lg (AConnect e sg l s :: rest) =
+  if sp_E p e && sp_L p l && (sg <? sp_nsg p) then sexec pick sc maxd f d (sp_connect p e sg l s) lg rest else sexec pick sc maxd f d p lg rest.
 Proof. reflexivity. Qed.
-Lemma sexec_disconnect f d p lg e sg l s rest : sexec sc maxd (S f) d p lg (ADisconnect e sg l s :: rest) =
-  if sp_E p e && sp_L p l && (sg <? sp_nsg p) then sexec sc maxd f d (sp_disconnect p e sg l s) lg rest else sexec sc maxd f d p lg rest.
+Lemma sexec_disconnect pick f d p lg e sg l s rest : sexec pick sc maxd (S f) d p lg (ADisconnect e sg l s :: rest) =
+  if sp_E p e && sp_L p l && (sg <? sp_nsg p) then sexec pick sc maxd f d (sp_disconnect_at (pick p e sg l s) p e sg l s) lg rest else sexec pick sc maxd f d p lg rest.
 Proof. reflexivity. Qed.
-Lemma sexec_destroyL f d p lg l rest : sexec sc maxd (S f) d p lg (ADestroyL l :: rest) =
-  if sp_L p l then sexec sc maxd f d (sp_destroyL p l) lg rest else sexec sc maxd f d p lg rest.
+Lemma sp_disconnect_at_0 p e sg l s : sp_disconnect_at 0 p e sg l s = sp_disconnect p e sg l s.
+Proof. unfold sp_disconnect_at, sp_disconnect. cbn [Nat.min]. rewrite rm_nth_0. reflexivity. Qed.
+Lemma sexec_disconnect_oldest f d p lg e sg l s rest : sexec oldest sc maxd (S f) d p lg (ADisconnect e sg l s :: rest) =
+  if sp_E p e && sp_L p l && (sg <? sp_nsg p) then sexec oldest sc maxd f d (sp_disconnect p e sg l s) lg rest else sexec oldest sc maxd f d p lg rest.
+Proof. rewrite sexec_disconnect. unfold oldest at 2. rewrite sp_disconnect_at_0. reflexivity. Qed.
+Lemma sexec_destroyL pick f d p lg l rest : sexec pick sc maxd (S f) d p lg (ADestroyL l :: rest) =
+  if sp_L p l then sexec pick sc maxd f d (sp_destroyL p l) lg rest else sexec pick sc maxd f d p lg rest.
 Proof. reflexivity. Qed.
-Lemma sexec_destroyE f d p lg e rest : sexec sc maxd (S f) d p lg (ADestroyE e :: rest) =
-  if sp_E p e then sexec sc maxd f d (sp_destroyE p e) lg rest else sexec sc maxd f d p lg rest.
+Lemma sexec_destroyE pick f d p lg e rest : sexec pick sc maxd (S f) d p lg (ADestroyE e :: rest) =
+  if sp_E p e then sexec pick sc maxd f d (sp_destroyE p e) lg rest else sexec pick sc maxd f d p lg rest.
 Proof. reflexivity. Qed.
-Lemma sexec_emit f d p lg e sg rest : sexec sc maxd (S f) d p lg (AEmit e sg :: rest) =
+Lemma sexec_emit pick f d p lg e sg rest : sexec pick sc maxd (S f) d p lg (AEmit e sg :: rest) =
   if sp_E p e && (sg <? sp_nsg p) && (d <? maxd) then
-    match sloop sc maxd f d (sp_begin p e sg) lg e sg with
-    | Done (p', lg') => sexec sc maxd f d (sp_end p' e sg) lg' rest
+    match sloop pick sc maxd f d (sp_begin p e sg) lg e sg with
+    | Done (p', lg') => sexec pick sc maxd f d (sp_end p' e sg) lg' rest
     | o => o
     end
-  else sexec sc maxd f d p lg rest.
+  else sexec pick sc maxd f d p lg rest.
 Proof. reflexivity. Qed.
-Lemma sloop_0 d p lg e sg : sloop sc maxd 0 d p lg e sg = OutOfFuel lg.
+Lemma sloop_0 pick d p lg e sg : sloop pick sc maxd 0 d p lg e sg = OutOfFuel lg.
 Proof. reflexivity. Qed.
-Lemma sloop_S f d p lg e sg : sloop sc maxd (S f) d p lg e sg =
+Lemma sloop_S pick f d p lg e sg : sloop pick sc maxd (S f) d p lg e sg =
   match sp_turn p e sg with
   | None => Done (p, lg)
   | Some c =>
-    match sexec sc maxd f (S d) (sp_advance p e sg c) (mkInv e sg (c_l c) (c_s c) :: lg) (sc (c_l c) (c_s c)) with
-    | Done (p', lg') => if sp_E p' e then sloop sc maxd f d p' lg' e sg else Done (p', lg')
+    match sexec pick sc maxd f (S d) (sp_advance p e sg c) (mkInv e sg (c_l c) (c_s c) :: lg) (sc (mkInv e sg (c_l c) (c_s c) :: lg) (c_l c) (c_s c)) with
+    | Done (p', lg') => if sp_E p' e then sloop pick sc maxd f d p' lg' e sg else Done (p', lg')
     | o => o
     end
   end.
@@ -119,9 +124,9 @@ Proof.
   - intros _. apply H3. rewrite HS, upd2_same. discriminate.
 Qed.
 
-Lemma spec_frame : forall fuel,
-  (forall d p lg acts p' lg', sexec sc maxd fuel d p lg acts = Done (p', lg') -> FrameS p p') /\
-  (forall d p lg e sg p' lg', sloop sc maxd fuel d p lg e sg = Done (p', lg') -> FrameL e sg p p').
+Lemma spec_frame pick : forall fuel,
+  (forall d p lg acts p' lg', sexec pick sc maxd fuel d p lg acts = Done (p', lg') -> FrameS p p') /\
+  (forall d p lg e sg p' lg', sloop pick sc maxd fuel d p lg e sg = Done (p', lg') -> FrameL e sg p p').
 Proof.
   induction fuel as [|f [IHe IHl]]; [split; intros; discriminate|]. split.
   - intros d p lg acts p' lg' H. destruct acts as [|a rest]; [rewrite sexec_nil in H; injection H as <- <-; apply FrameS_refl|].
@@ -131,7 +136,7 @@ Proof.
     + rewrite sexec_disconnect in H. destruct (sp_E p e && sp_L p l && (sg <? sp_nsg p)); [|eapply IHe; exact H].
       eapply FrameS_trans; [|eapply IHe; exact H]. intros e' sg'. reflexivity.
     + rewrite sexec_emit in H. destruct (sp_E p e && (sg <? sp_nsg p) && (d <? maxd)); [|eapply IHe; exact H].
-      destruct (sloop sc maxd f d (sp_begin p e sg) lg e sg) as [[p1 lg1]| |] eqn:Hl; try discriminate.
+      destruct (sloop pick sc maxd f d (sp_begin p e sg) lg e sg) as [[p1 lg1]| |] eqn:Hl; try discriminate.
       apply IHl in Hl. apply IHe in H. destruct Hl as [H1 [H2 H3]].
       intros e' sg'. rewrite H. unfold sp_end, sp_begin in *; cbn [sp_em] in *.
       destruct (pair_dec e' sg' e sg) as [Heq|Hne].
@@ -144,7 +149,7 @@ Proof.
   - intros d p lg e sg p' lg' H. rewrite sloop_S in H. rewrite sp_turn_eq in H.
     destruct (em_cur (sp_em p e sg)) as [|k ks] eqn:Hk; [injection H as <- <-; apply FrameL_refl|].
     destruct (find (turnq k (em_w (sp_em p e sg))) (conns p e sg)) as [c|]; [|injection H as <- <-; apply FrameL_refl].
-    destruct (sexec sc maxd f (S d) (sp_advance p e sg c) _ _) as [[p2 lg2]| |] eqn:He; try discriminate.
+    destruct (sexec pick sc maxd f (S d) (sp_advance p e sg c) _ _) as [[p2 lg2]| |] eqn:He; try discriminate.
     apply IHe in He. destruct (sp_E p2 e).
     + apply IHl in H. eapply FrameL_step; [rewrite Hk; discriminate|exact He|exact H].
     + injection H as <- <-. eapply FrameL_step; [rewrite Hk; discriminate|exact He|apply FrameL_refl].
@@ -188,9 +193,9 @@ Proof.
 Qed.
 
 Lemma sim : forall fuel,
-  (forall d st p lg acts, R st p -> rel_out (exec sc maxd fuel d st lg acts) (sexec sc maxd fuel d p lg acts)) /\
+  (forall d st p lg acts, R st p -> rel_out (exec sc maxd fuel d st lg acts) (sexec oldest sc maxd fuel d p lg acts)) /\
   (forall d st p lg e sg, R st p -> sp_E p e = true -> em_cur (sp_em p e sg) <> [] ->
-     rel_out (loop sc maxd fuel d st lg e sg) (sloop sc maxd fuel d p lg e sg)).
+     rel_out (loop sc maxd fuel d st lg e sg) (sloop oldest sc maxd fuel d p lg e sg)).
 Proof.
   induction fuel as [|f [IHe IHl]]; [split; intros; reflexivity|]. split.
   - intros d st p lg acts [T HR]. destruct acts as [|a rest].
@@ -202,7 +207,7 @@ Proof.
       destruct (sg <? sp_nsg p) eqn:Hsg; [|apply IHe; exists T; exact HR]. cbn [andb].
       apply Nat.ltb_lt in Hsg. destruct (connect_RT _ _ _ e sg l s HR He Hl Hsg) as (st' & -> & HR').
       apply IHe. eexists; exact HR'.
-    + rewrite exec_disconnect, sexec_disconnect, (guard_E _ _ _ e HR), (guard_L _ _ _ l HR), (guard_nsg _ _ _ HR).
+    + rewrite exec_disconnect, sexec_disconnect_oldest, (guard_E _ _ _ e HR), (guard_L _ _ _ l HR), (guard_nsg _ _ _ HR).
       destruct (sp_E p e) eqn:He; [|apply IHe; exists T; exact HR].
       destruct (sp_L p l) eqn:Hl; [|apply IHe; exists T; exact HR].
       destruct (sg <? sp_nsg p) eqn:Hsg; [|apply IHe; exists T; exact HR]. cbn [andb].
@@ -218,10 +223,10 @@ Proof.
         { unfold sp_begin; cbn [sp_em]. rewrite upd2_same. discriminate. }
         pose proof (IHl d st1 (sp_begin p e sg) lg e sg (ex_intro _ _ HR1) He Hcur1) as Hloop.
         destruct (loop sc maxd f d st1 lg e sg) as [[st2 lg2]|lg2|lg2];
-          destruct (sloop sc maxd f d (sp_begin p e sg) lg e sg) as [[p2 lg2']|lg2'|lg2'] eqn:Hsl; cbn [rel_out] in Hloop; try contradiction; [|exact Hloop].
+          destruct (sloop oldest sc maxd f d (sp_begin p e sg) lg e sg) as [[p2 lg2']|lg2'|lg2'] eqn:Hsl; cbn [rel_out] in Hloop; try contradiction; [|exact Hloop].
         destruct Hloop as [<- [T2 HR2]].
         assert (Hcur2 : em_cur (sp_em p2 e sg) <> []).
-        { destruct (proj2 (spec_frame f) _ _ _ _ _ _ _ Hsl) as (_ & _ & H3). apply H3. exact Hcur1. }
+        { destruct (proj2 (spec_frame oldest f) _ _ _ _ _ _ _ Hsl) as (_ & _ & H3). apply H3. exact Hcur1. }
         destruct (emit_end_RT _ _ _ e sg HR2 Hcur2) as (st3 & T3 & -> & HR3).
         apply IHe. eexists; exact HR3.
       * assert (Hb : emit_begin st e sg = Some st).
@@ -246,12 +251,12 @@ Proof.
     destruct (emit_next_RT _ _ _ e sg HR He Hcur) as [(st1 & T1 & -> & -> & HR1)|(st1 & x & c & T1 & -> & -> & Hl & Hs & HR1)].
     + split; [reflexivity|eexists; exact HR1].
     + rewrite Hl, Hs.
-      pose proof (IHe (S d) st1 (sp_advance p e sg c) (mkInv e sg (s_recv x) (s_slot x) :: lg) (sc (s_recv x) (s_slot x)) (ex_intro _ _ HR1)) as Hex.
+      pose proof (IHe (S d) st1 (sp_advance p e sg c) (mkInv e sg (s_recv x) (s_slot x) :: lg) (sc (mkInv e sg (s_recv x) (s_slot x) :: lg) (s_recv x) (s_slot x)) (ex_intro _ _ HR1)) as Hex.
       destruct (exec sc maxd f (S d) st1 _ _) as [[st2 lg2]|lg2|lg2];
-        destruct (sexec sc maxd f (S d) (sp_advance p e sg c) _ _) as [[p2 lg2']|lg2'|lg2'] eqn:Hse; cbn [rel_out] in Hex; try contradiction; [|exact Hex].
+        destruct (sexec oldest sc maxd f (S d) (sp_advance p e sg c) _ _) as [[p2 lg2']|lg2'|lg2'] eqn:Hse; cbn [rel_out] in Hex; try contradiction; [|exact Hex].
       destruct Hex as [<- [T2 HR2]].
       assert (Hcur2 : em_cur (sp_em p2 e sg) <> []).
-      { rewrite (proj1 (spec_frame f) _ _ _ _ _ _ Hse e sg). unfold sp_advance; cbn [sp_em]. rewrite upd2_same. discriminate. }
+      { rewrite (proj1 (spec_frame oldest f) _ _ _ _ _ _ Hse e sg). unfold sp_advance; cbn [sp_em]. rewrite upd2_same. discriminate. }
       rewrite (invalidated_RT _ _ _ e sg HR2 Hcur2). destruct (sp_E p2 e) eqn:He2; cbn [negb].
       * apply IHl; [eexists; exact HR2|exact He2|exact Hcur2].
       * split; [reflexivity|eexists; exact HR2].
